@@ -19,7 +19,11 @@ LEVEL_TEXT = ("covers_at_least_once (every oracle stream, every kill/restart pat
               "exactly_once_without_kill and cycle_numbers_increment are proved for all schedules and any number >= 2 of "
               "prefixes (the code has 1024, pinned); the model is tied to crawler.py by comparing the process_bucket log and "
               "the state file after every slice of systematically enumerated and random schedules.")
-LEVEL_NOTE = ("Hypotheses: at least two prefixes (with a single prefix the bucket cache of the previous cycle would be reused; "
+LEVEL_NOTE = ("State file: state_file_tracks_memory / proc_refines_slice_machine prove, on a machine with explicit save_state / "
+              "load_state (and the prefix-name <-> index mapping), that the file equals the in-memory progress incl. "
+              "last-complete-bucket after every event; the driver runs that machine and the harness compares both the file and "
+              "the in-memory state of the (re-created) crawler, incl. orderly stopService() restarts. " +
+              "Hypotheses: at least two prefixes (with a single prefix the bucket cache of the previous cycle would be reused; "
               "proved counterexample), bucket names start with their prefix (names of later prefixes compare greater: "
               "last-complete-bucket is not reset between prefixes). Kills are modelled at process_bucket-call granularity.")
 RULE = ("a case is one event (slice / killed slice / restart) of a schedule run on the real ShareCrawler over a real directory tree; "
@@ -144,9 +148,20 @@ def read_state(statefile, rank, prefixes):
                             "N" if lcb is None else str(rank[lcb])), st
 
 
+def mem_state(c, rank):
+    """the in-memory crawler (self.state + last_complete_prefix_index) in the driver's notation"""
+    st = c.state
+    lcb = st["last-complete-bucket"]
+
+    def o(x):
+        return "N" if x is None else str(x)
+    return "m%s/%s/%d/%s" % (o(st["current-cycle"]), o(st["last-cycle-finished"]), c.last_complete_prefix_index + 1,
+                             "N" if lcb is None else str(rank[lcb]))
+
+
 def run_schedule(ctx, world, sched):
     """sched = {"names": [bucket names], "events": [event]}; event =
-    {"k": "s"|"k"|"r", "ls": [names present], "o": [check indices], "kill": K, "style": 0|1}.
+    {"k": "s"|"k"|"r"|"g", "ls": [names present], "o": [check indices], "kill": K, "style": 0|1}.
     Returns (impl output string, driver line)."""
     world.n += 1
     base = os.path.join(world.root, "w%d" % world.n)
@@ -164,13 +179,15 @@ def run_schedule(ctx, world, sched):
     history = []     # for the monitor: (cycle worked on, listing set or None, killed?, slice log, state after)
     for ev in sched["events"]:
         state_before, st_before = read_state(statefile, rank, world.prefixes)
-        if ev["k"] == "r":
+        if ev["k"] in ("r", "g"):
+            if ev["k"] == "g":
+                c.stopService()        # orderly shutdown between slices: calls save_state
             c = world.cls(srv, statefile, script)
-            outs.append("-/" + read_state(statefile, rank, world.prefixes)[0])
-            toks.append("r")
+            outs.append("-/" + read_state(statefile, rank, world.prefixes)[0] + "/" + mem_state(c, rank))
+            toks.append(ev["k"])
             history.append((None, None, False, [], read_state(statefile, rank, world.prefixes)[1]))
             ctx.case(None)
-            ctx.count("event:restart")
+            ctx.count("event:restart" if ev["k"] == "r" else "event:graceful-stop")
             continue
         want = set(ev["ls"])
         for n in sorted(present - want):
@@ -213,7 +230,8 @@ def run_schedule(ctx, world, sched):
             killed = True
         lg = list(script.slice_log)
         state_after, st_after = read_state(statefile, rank, world.prefixes)
-        outs.append((",".join("%d.%d.%d" % (cy, pidx[p], rank[b]) for (cy, p, b) in lg) or "-") + "/" + state_after)
+        outs.append((",".join("%d.%d.%d" % (cy, pidx[p], rank[b]) for (cy, p, b) in lg) or "-") + "/" + state_after
+                    + "/" + mem_state(c, rank))
         history.append((working_on, set(want), killed, lg, st_after))
         nontrivial = bool(lg) or killed or bool(ev["o"])
         ctx.case((state_before, listing, oracle, ev.get("kill"), ev["k"]) if nontrivial else None)
@@ -316,6 +334,10 @@ def systematic(world, names, tier_all):
         # interruption only, then a restart between slices
         scheds.append({"names": names, "events": [{"k": "s", "ls": names, "o": [c]}, {"k": "r"},
                                                   {"k": "s", "ls": names, "o": []}, {"k": "s", "ls": names, "o": []}]})
+        # interruption only, then an orderly stopService() + new process
+        scheds.append({"names": names, "events": [{"k": "s", "ls": names, "o": [c]}, {"k": "g"},
+                                                  {"k": "s", "ls": names, "o": [0]}, {"k": "g"},
+                                                  {"k": "s", "ls": names, "o": []}, {"k": "s", "ls": names, "o": []}]})
         # interrupted at c and again at the first check of the next slice
         scheds.append({"names": names, "events": [{"k": "s", "ls": names, "o": [c]}, {"k": "s", "ls": names, "o": [0]},
                                                   {"k": "s", "ls": names, "o": []}, {"k": "s", "ls": names, "o": []}]})
@@ -338,8 +360,10 @@ def gen_random(rng, world, names):
         # later interruptions of one slice are counted from its own first check: also use small indices
         if rng.random() < 0.4:
             o.append(rng.randrange(0, 4))
-        if r < 0.12:
+        if r < 0.07:
             evs.append({"k": "r"})
+        elif r < 0.14:
+            evs.append({"k": "g"})
         elif r < 0.35:
             evs.append({"k": "k", "ls": sorted(present), "o": o, "kill": rng.randrange(0, len(names) + 2), "style": rng.choice([0, 1])})
         else:
